@@ -173,7 +173,16 @@ def run_history(seed, env, res):
     styles = [KittyImage, KittyImage, BlockImage] + ([ITerm2Image] if personality == "konsole" else [])
     # applications subclass the widget; all image widgets share one z-index space
     wcls = [UrwidImage, UrwidImage, _subclasses(UrwidImage)[0], _subclasses(UrwidImage)[1]]
-    widgets = [rnd.choice(wcls)(rnd.choice(styles)(mkimg(rnd)), rnd.choice(["", "<.^", ">._"]), upscale=rnd.random() < 0.5) for _ in range(rnd.randint(1, 4))]
+
+    def new_widget(plain=False):
+        # (graphics widgets also with a style-specific part in their format specifier --
+        # the explicit LINES method is what the class documentation recommends -- several
+        # of them with the very same one)
+        style = rnd.choice(styles)
+        specs = ["", "<.^", ">._"] + (["+L", "+L", "+L", "<.^+L", "+c3"] if style is not BlockImage else [])
+        return rnd.choice(wcls)(style(mkimg(rnd)), "" if plain and rnd.random() < 0.5 else rnd.choice(specs), upscale=rnd.random() < 0.5)
+
+    widgets = [new_widget() for _ in range(rnd.randint(1, 4))]
     top = None
     kind = None
     try:
@@ -186,7 +195,7 @@ def run_history(seed, env, res):
                 gc.collect()
                 kind, top = layout(rnd, widgets, urwid)
             elif act == "add":
-                widgets.append(rnd.choice(wcls)(rnd.choice(styles)(mkimg(rnd)), "", upscale=rnd.random() < 0.5))
+                widgets.append(new_widget(plain=True))
                 kind, top = layout(rnd, widgets, urwid)
             elif act == "shift" and kind == "shift":
                 cols = top.contents[1][0] if isinstance(top, urwid.Pile) else top
